@@ -472,6 +472,46 @@ pub fn run(ctx: &mut Ctx) {
                 }
             }
         }
+
+        // F: retransmissions and re-segmented overlaps: some segments are delivered twice, and
+        // further segments repeat byte ranges that other segments (will) carry -- always with the
+        // stream's own bytes.  The bytes of each direction are unchanged, so is the expectation.
+        let fnn = ctx.scale(8, 40, 1);
+        for d in 0..fnn {
+            let (kc, ks) = (1 + r.usize(4), 1 + r.usize(4));
+            let cc = rand_cuts(&mut r, ex.req.len(), kc);
+            let sc = rand_cuts(&mut r, ex.res.len(), ks);
+            let mut o: Vec<DataSeg> = segs_of(&ex.req, &cc, true).into_iter().chain(segs_of(&ex.res, &sc, false)).collect();
+            let dups = r.usize(4);
+            for _ in 0..dups {
+                let k = r.usize(o.len());
+                let seg = o[k].clone();
+                let pos = r.usize(o.len() + 1);
+                o.insert(pos, seg);
+            }
+            let overlaps = r.usize(4);
+            for _ in 0..overlaps {
+                let from_client = r.chance(1, 2);
+                let stream = if from_client { &ex.req } else { &ex.res };
+                if stream.len() < 2 {
+                    continue;
+                }
+                let a = r.usize(stream.len() - 1);
+                let b = a + 1 + r.usize(stream.len() - a - 1);
+                let pos = r.usize(o.len() + 1);
+                o.insert(pos, DataSeg { from_client, offset: a, bytes: stream[a..b].to_vec() });
+            }
+            if dups + overlaps == 0 {
+                let seg = o[0].clone();
+                o.push(seg);
+            }
+            if d % 3 == 2 {
+                r.shuffle(&mut o);
+            }
+            let ci = *r.pick(&isns);
+            let si = *r.pick(&isns);
+            judge(ctx, &j, if d % 3 == 2 { "retransmit-overlap-shuffled" } else { "retransmit-overlap" }, ci, si, &o);
+        }
     }
     if let Some(l) = lane.take() {
         l.shutdown();
@@ -494,9 +534,9 @@ pub fn spec() -> PropSpec {
         id: "C09",
         run,
         shards: super::shards_16,
-        rule: "seeded HTTP/1.x and HTTP/2 exchanges are delivered to the HTTP (and unified) analyzer after SYN / SYN+ACK under: every 2-cut of request and response (in order, swapped, reordered), every initial sequence number within one stream length of 2^32 for both directions, all permutations of up to 5 client segments, and random partitions of both directions in random or bounded-displacement order; each delivery must report exactly the baseline's request and response (canonical equality, correct direction, once) and never while the delivered segments do not yet cover the contiguous prefix up to the end of the head; a bucket is a distinct (family, analyzer, protocol, segment count, in-order/reordered, client/server wrap) combination",
+        rule: "seeded HTTP/1.x and HTTP/2 exchanges are delivered to the HTTP (and unified) analyzer after SYN / SYN+ACK under: every 2-cut of request and response (in order, swapped, reordered), every initial sequence number within one stream length of 2^32 for both directions, all permutations of up to 5 client segments, random partitions of both directions in random or bounded-displacement order, and partitions with retransmitted segments and re-segmented overlaps (the stream's own bytes, in order or shuffled); 3..6 of the random deliveries per exchange also go through an HTTP worker pool of 2..8 workers frame by frame; each delivery must report exactly the baseline's request and response (canonical equality, correct direction, once) and never while the delivered segments do not yet cover the contiguous prefix up to the end of the head; a bucket is a distinct (family, analyzer, protocol, segment count, in-order/reordered, client/server wrap) combination",
         assumptions: &[
-            "SYN and SYN+ACK are always delivered first (the property's precondition); no retransmissions, overlaps, FIN or RST are generated",
+            "SYN and SYN+ACK are always delivered first (the property's precondition); retransmitted and overlapping segments always repeat the stream's own bytes (conflicting overlaps are not generated); no FIN or RST",
             "HTTP/2 header blocks are carried in a single HEADERS frame with END_HEADERS (CONTINUATION/PADDED framing is C16's subject)",
         ],
         parent_stage: None,
